@@ -18,7 +18,7 @@ def _adapter(ctx, kind):
     if kind == "linear":
         return fm.adapters.LinearTime(), None
     if kind == "step":
-        st = ctx.real("step", lo=0, hi=1)
+        st = ctx.params["step_value"] if "step_value" in ctx.params else ctx.real("step", lo=0, hi=1)
         return fm.adapters.StepTime(step=st), st
     raise ValueError(kind)
 
@@ -242,6 +242,13 @@ def families(tier):
             params={"kind": kind, "pattern": pat, "gaps": None},
             bounds=f"adapter {kind}; event pattern {pat}; symbolic gaps >= 1 us, symbolic values and requests",
             must_cover=["req:ok", "req:time-error"], query_timeout_ms=20000))
+    # the end points of the step-position range as plain Python numbers (what a user writes)
+    for sv in ((0.0, 1.0) if q else (0.0, 1.0, 0, 1, 0.5)):
+        fams.append(dict(
+            name=f"step={sv!r}:PPPRR:gaps3-1", ref="vf.props.c11:h_interp",
+            params={"kind": "step", "pattern": "PPPRR", "gaps": [3, 1], "step_value": sv},
+            bounds=f"adapter step with the concrete step position {sv!r}; pattern PPPRR; concrete gaps [3, 1] us; symbolic "
+                   f"values and request times", must_cover=["req:ok"]))
     for kind in ("next", "prev", "linear", "step"):
         pat = "PPPPRRR" if q else "PPPRPPRRR"
         fams.append(dict(
